@@ -164,6 +164,10 @@ def run_diff(case, viol, obs):
         if s3[0] != "time-limit":
             obs["c11.missing_attr_equivalences"] += 1
             if s3 != sn:
+                # classify by mechanism: do the walk model's per-edge multiplicity caps (largest reachable weight) depend on the ignored node's value?
+                c1 = getattr(rn.get("model"), "edge_upper_bounds", None); c3 = getattr(r3.get("model"), "edge_upper_bounds", None)
+                if c1 is not None and c3 is not None and {str(k): v for k, v in c1.items() if "source_" not in str(k) and "sink_" not in str(k)} != {str(k): v for k, v in c3.items() if "source_" not in str(k) and "sink_" not in str(k)}:
+                    tag = "/edge-cap-uses-ignored-values"
                 viol.append({"sig": f"C11/missing-attribute-differs-from-ignored-node/{cls}{tag}", "msg": f"node {drop[0]} without attribute: {sn}; with value 5 but ignored: {s3}; {desc}"})
     return hashlib.sha1(desc.encode()).hexdigest()[:14], sn[0] == "solved" and se[0] == "solved", {"desc": desc[:600], "node_mode": str(sn), "own_expansion": str(se)}
 
